@@ -3,7 +3,7 @@
 (* agent computed for (database, expression, injected IRR errors), against    *)
 (* Rpsl!Eval.  One ndjson line per evaluation; `pos` is its position in the   *)
 (* sequence of evaluations on one connection (C17).                           *)
-EXTENDS Rpsl, Json, IOUtils, TLCExt, Integers
+EXTENDS Rpsl, IrrdProto, Json, IOUtils, TLCExt, Integers
 
 Rec == ndJsonDeserialize(IOEnv.TRACE)
 VARIABLES l, viol, stats
@@ -43,6 +43,37 @@ ComplementsV6(x, db, errs) ==
   ELSE \/ ComplementsV6(x.l, db, errs) \/ ComplementsV6(x.r, db, errs)
        \/ (x.op = "andnot" /\ \E a \in Eval(x.r, db, errs, 3) : a[1] = 6)
 
+(* ---- the IRRd protocol model (IrrdProto / Irrd.tla) against the fake IRRd's log of this evaluation ------------ *)
+(* resolver calls an evaluation makes, in order: operands left to right, a failed operand ends the evaluation,   *)
+(* a resolved filter-set is followed by the calls of its stored expression                                       *)
+RECURSIVE CallsOf(_, _, _, _, _)
+CallsOf(x, db, errs, nm, depth) ==
+  CASE x.op = "asset" -> [calls |-> <<[k |-> "asset", n |-> nm[x.name]]>>, ok |-> x.name \in DOMAIN db.asSets /\ x.name \notin errs.asSets]
+    [] x.op = "as" -> [calls |-> <<[k |-> "as", n |-> nm[x.name]]>>, ok |-> TRUE]
+    [] x.op = "rset" -> [calls |-> <<[k |-> "rset", n |-> nm[x.name]]>>, ok |-> TRUE]
+    [] x.op = "lit" -> [calls |-> <<>>, ok |-> TRUE]
+    [] x.op = "fset" ->
+         IF x.name \notin DOMAIN db.fltSets \/ x.name \in errs.fltSets \/ depth = 0
+         THEN [calls |-> <<[k |-> "fset", n |-> nm[x.name]]>>, ok |-> TRUE]
+         ELSE LET sub == CallsOf(db.fltSets[x.name], db, errs, nm, depth - 1)
+              IN  [calls |-> <<[k |-> "fset", n |-> nm[x.name]]>> \o sub.calls, ok |-> sub.ok]
+    [] OTHER -> LET lft == CallsOf(x.l, db, errs, nm, depth) IN
+                IF ~lft.ok THEN lft
+                ELSE LET rgt == CallsOf(x.r, db, errs, nm, depth) IN [calls |-> lft.calls \o rgt.calls, ok |-> rgt.ok]
+AnswersOf(qlog) ==
+  LET qs == {Q(qlog[k].c, qlog[k].n) : k \in 1..Len(qlog)} IN
+  [q \in qs |-> LET k == CHOOSE j \in 1..Len(qlog) : Q(qlog[j].c, qlog[j].n) = q IN [st |-> qlog[k].st, items |-> qlog[k].items]]
+RECURSIVE Concat(_)
+Concat(ss) == IF ss = <<>> THEN <<>> ELSE Head(ss) \o Concat(Tail(ss))
+PredictedQueries(e) ==
+  LET A == AnswersOf(e.qlog)
+      cs == CallsOf(Expr(e.expr), Db(e.db), Errs(e.errs), e.names, 3).calls
+  IN  Concat([k \in 1..Len(cs) |-> QueriesOfA(A, cs[k])])
+ObservedQueries(e) == [k \in 1..Len(e.qlog) |-> Q(e.qlog[k].c, e.qlog[k].n)]
+(* the implementation-shaped model and the code disagree about which queries an evaluation sends: MODEL-DRIFT,  *)
+(* reported, never a violation (the property does not say how the data is fetched)                               *)
+Drifts(e) == Has(e, "qlog") /\ e.outcome # "panic" /\ PredictedQueries(e) # ObservedQueries(e)
+
 LineViol(e) ==
   LET want == Eval(Expr(e.expr), Db(e.db), Errs(e.errs), 3)
       prop == e.prop
@@ -59,12 +90,15 @@ LineViol(e) ==
   ELSE IF e.extra THEN {V(prop, "RangesBeyondTheDefinedSet", where, e)}
   ELSE {}
 
-TInit == l = 1 /\ viol = {} /\ stats = [lines |-> 0, nonempty |-> 0, failed |-> 0, later |-> 0]
+TInit == l = 1 /\ viol = {} /\ stats = [lines |-> 0, nonempty |-> 0, failed |-> 0, later |-> 0, qchecked |-> 0, drift |-> 0, driftcase |-> ""]
 TNext == /\ l <= Len(Rec) /\ l' = l + 1
          /\ LET e == Rec[l] IN
             /\ viol' = Merge(viol, LineViol(e))
             /\ stats' = [stats EXCEPT !.lines = @ + 1, !.nonempty = IF e.outcome = "ok" /\ e.atoms # <<>> THEN @ + 1 ELSE @,
-                                      !.failed = IF e.outcome # "ok" THEN @ + 1 ELSE @, !.later = IF e.pos > 1 THEN @ + 1 ELSE @]
+                                      !.failed = IF e.outcome # "ok" THEN @ + 1 ELSE @, !.later = IF e.pos > 1 THEN @ + 1 ELSE @,
+                                      !.qchecked = IF Has(e, "qlog") THEN @ + 1 ELSE @,
+                                      !.drift = IF Drifts(e) THEN @ + 1 ELSE @,
+                                      !.driftcase = IF @ = "" /\ Drifts(e) THEN e.case ELSE @]
 TSpec == TInit /\ [][TNext]_tvars
 Done == l > Len(Rec)
 Report == Done => PrintT(<<"TRACE-RESULT", ToJson([lines |-> Len(Rec), stats |-> stats, viol |-> viol])>>)
